@@ -200,6 +200,9 @@ func outlSx(o sfnt.Outlines, fileView bool) (v.Sx, error) {
 			parts = append(parts, []byte(k), o.Tables[k])
 		}
 		widths, names, mx := v.Sx(none), v.Sx(none), v.Sx(none)
+		if !fileView && customNameCount(o.Names) > maxCustomNames {
+			return nil, unmodelled("more custom glyph names than a format-2 post table can index")
+		}
 		if !fileView {
 			if o.Widths != nil {
 				widths = zlist(o.Widths)
